@@ -401,7 +401,7 @@ fn run_case(out: &mut Out, r: &mut Rng, mode: Mode, np: usize, nkeys: u8, nops: 
     let crashy = r.chance(1, 3);
     if let Some(evs) = script {
         for e in evs {
-            match e { Ev::Start(p, op) => c.start(p, op, false), Ev::Step(p) => c.step(p, mode), Ev::Crash(p) => c.crash(p) }
+            match e { Ev::Start(p, op) => c.start(p, op, false), Ev::Step(p) => { if matches!(c.sched.state(p), PState::At(..)) { c.step(p, mode) } }, Ev::Crash(p) => c.crash(p) }
         }
     } else {
         let mut started = 0usize;
